@@ -410,6 +410,17 @@ func c08Run(w *core.W) {
 		}
 		c08Case(w, &project{Root: "{\n" + strings.Join(props, "\n") + "\n}", Types: map[string]string{"@id": `"u-1"`, "@s": `"s"`}}, "key-shortcut-reuse")
 	}
+	// (8) recursive types: whatever ends the recursion, the example must still be an
+	// instance (a required nullable property is null, not missing)
+	for _, ta := range []string{"{\n\t\"x\": @a // {nullable: true}\n}", "{\n\t\"x\": @a, // {nullable: true}\n\t\"y\": 1\n}", "{\n\t\"y\": 1,\n\t\"x\": @a // {nullable: true}\n}",
+		"{\n\t\"x\": @a // {optional: true}\n}", "{\n\t\"x\": @a, // {optional: true}\n\t\"y\": 1\n}", "{\n\t\"l\": [\n\t\t@a\n\t]\n}", "{\n\t\"c\": @a | @s\n}", "{\n\t\"c\": @s | @a\n}",
+		"{\n\t\"n\": {\n\t\t\"in\": @a // {nullable: true}\n\t}\n}", "{\n\t\"b\": @b // {nullable: true}\n}", "{\n\t\"x\": @a, // {optional: true, nullable: true}\n\t\"z\": @b // {optional: true}\n}"} {
+		for _, root := range []string{"@a", "{\n\t\"r\": @a\n}", "[\n\t@a\n]", "@a | @s"} {
+			if mine() {
+				c08Case(w, &project{Root: root, Types: map[string]string{"@a": ta, "@s": `"s"`, "@b": "{\n\t\"back\": @a // {nullable: true}\n}"}}, "recursive-types")
+			}
+		}
+	}
 	// (7) regex user types in every kind of reference
 	for _, body := range []string{"@r", "{\n\t\"k\": @r\n}", "[\n\t@r\n]", `"aab" // {type: "@r"}`, "@r | @s", `"aab" // {or: ["@r", "integer"]}`,
 		"{\n\t@r: 1\n}", "{} // {additionalProperties: \"@r\"}", "{\n\t\"k\": @r, // {optional: true}\n\t\"m\": @q\n}"} {
